@@ -16,6 +16,12 @@ NSHARDS = 16
 CHUNK = 400      # scenarios per vm_compute term
 
 
+def lockfile():
+    """the repository's Cargo.lock (untracked there); a copy shipped with the framework is used when it is absent"""
+    p = os.path.join(REPO, 'Cargo.lock')
+    return p if os.path.exists(p) else os.path.join(VERIF, 'harness', 'Cargo.lock.fallback')
+
+
 def log(*a):
     print('[bbv]', *a, file=sys.stderr, flush=True)
 
@@ -285,7 +291,7 @@ def stage_verdicts(ws, ds):
     os.makedirs(ws.path('crate', 'src'))
     os.makedirs(ws.path('dumps'))
     open(ws.path('crate', 'Cargo.toml'), 'w').write(CARGO_TOML % REPO)
-    shutil.copy(os.path.join(REPO, 'Cargo.lock'), ws.path('crate', 'Cargo.lock'))
+    shutil.copy(lockfile(), ws.path('crate', 'Cargo.lock'))
     rejected = {}
     cascade = set()
     unattributed = []
@@ -908,7 +914,7 @@ def release_verdicts(ws, ds, verdicts):
     os.makedirs(ws.path('crate_rel', 'src'))
     os.makedirs(ws.path('dumps_rel'), exist_ok=True)
     open(ws.path('crate_rel', 'Cargo.toml'), 'w').write((CARGO_TOML % REPO).replace('name = "corpus"', 'name = "corpusrel"'))
-    shutil.copy(os.path.join(REPO, 'Cargo.lock'), ws.path('crate_rel', 'Cargo.lock'))
+    shutil.copy(lockfile(), ws.path('crate_rel', 'Cargo.lock'))
     still = {}
     for _ in range(12):
         spans = write_lib(ws, sub, set(still), crate='crate_rel')
